@@ -223,12 +223,27 @@ class KeepAliveWire(Unit):
             pkt = clientbound.play.PlayerPositionAndLookPacket()
             field = 'teleport_id'
         I.setattr_(pkt, 'context', ctx)
+        spec_wire = None
         if which == 0:
-            stream = ArbitraryStream(I, 'wire')
+            # the server's bytes are built from the SPECIFICATION of the packet (spec/protocol_ref.py), not from the
+            # library's own definition: a Long from protocol 339 on, a canonical VarInt before
+            from spec import protocol_ref as REF, wire_sym as WS
+            import z3
+            if I.truth(i >= minecraft.PROTOCOL_VERSION_INDICES[REF.KEEPALIVE_LONG_FROM]):
+                spec_wire = SBytes([E.new_byte('id[%d]' % k) for k in range(8)])
+            else:
+                v = E.new_int('id', 0, (1 << 32) - 1)        # a Java int as its unsigned VarInt image
+                k = 1 + E.fork(5, 'varint-length')
+                E.assume(SBool(WS.varint_len_cond(v.t, k)))
+                spec_wire = SBytes([('byte', t) for t in WS.varint_terms(v.t, k)])
+            stream = InStream(I, spec_wire)
             try:
                 I.call(I.getattr_(pkt, 'read'), stream)
-            except PyRaise:
-                return None            # not a well-formed keep-alive: nothing to answer
+            except PyRaise as e:
+                E.check('wire.keepalive-decodable', False, note='a keep-alive built per the protocol specification is rejected: %r' % (e.exc,))
+                return None
+            E.check('wire.keepalive-consumed', I.equals(stream.reader.remaining().length(), 0),
+                    note='the id field occupies exactly the bytes the specification says (8 from protocol 339, a VarInt before)')
         else:
             # only the id matters: decode it from arbitrary wire bytes with the field's own type
             stream = ArbitraryStream(I, 'wire')
@@ -256,6 +271,9 @@ class KeepAliveWire(Unit):
         except PyRaise as e:
             E.check('wire.answer-writable', False, note='the answer to a decodable %s cannot be written: %r' % (field, e.exc))
             return None
+        if spec_wire is not None:
+            E.check('wire.answer-bytes', SBytes.of(I.call(I.getattr_(buf, 'get_writable'))) == spec_wire,
+                    note='the answer carries the id in exactly the bytes it arrived in (same field type per the specification)')
         I.call(I.getattr_(buf, 'reset_cursor'))
         back = type(q[0])()
         I.setattr_(back, 'context', ctx)
@@ -264,15 +282,21 @@ class KeepAliveWire(Unit):
         return None
 
     def replay(self, model, label):
-        total = int(model.get('wire.total', 0))
-        data = bytes(int(model.get('wire[%d]' % k, 0)) & 0xFF for k in range(min(total, 16)))
+        from spec import wire as W, protocol_ref as REF
         i = int(model.get('i', 0))
+        if protocol_of_index(i) >= REF.KEEPALIVE_LONG_FROM:
+            data = bytes(int(model.get('id[%d]' % k, 0)) & 0xFF for k in range(8))
+        else:
+            data = W.varint_enc(int(model.get('id', 0)))
         return replay_wire(i, data)
 
     def bounded(self, rng, tier):
         fails, cnt = [], 0
         from spec import wire as W
-        for i in sorted(set(supported_indices_()[::10] + [supported_indices_()[0], supported_indices_()[-1]])):
+        import minecraft as _mc
+        edge = [_mc.PROTOCOL_VERSION_INDICES[p] for p in (338, 339, 340) if p in _mc.PROTOCOL_VERSION_INDICES]
+        for i in sorted(set(supported_indices_()[::10] + [supported_indices_()[0], supported_indices_()[-1]] +
+                            [e for e in edge if e in supported_indices_()])):
             for v in (0, 1, 127, 128, 2 ** 31 - 1, 2 ** 31, 2 ** 32 - 1, 2 ** 35 - 1):
                 cnt += 1
                 rp = replay_wire(i, W.varint_enc(v) if protocol_of_index(i) < 339 else (v % 2 ** 64).to_bytes(8, 'big'))
@@ -296,9 +320,13 @@ def replay_wire(i, data):
     conn.context, conn._outgoing_packet_queue, conn.spawned = ctx, deque(), False
     r = PlayingReactor(conn)
     pkt = clientbound.play.KeepAlivePacket(ctx)
-    k, v = native_call(pkt.read, io.BytesIO(data))
+    src = io.BytesIO(data)
+    k, v = native_call(pkt.read, src)
+    where = 'keep-alive with id bytes %s (built per the specification) at protocol %d' % (data.hex(), protocol_of_index(i))
     if k != 'ok':
-        return dict(confirmed=False, call='keep-alive bytes %s' % data.hex(), observed='not decodable')
+        return dict(confirmed=True, call=where, observed='rejected: %r' % (v,))
+    if src.read():
+        return dict(confirmed=True, call=where, observed='the id field was decoded from only part of its %d bytes' % len(data))
     r.react(pkt)
     bad = None
     if len(conn._outgoing_packet_queue) != 1:
@@ -314,6 +342,8 @@ def replay_wire(i, data):
             back.read(buf)
             if back.keep_alive_id != pkt.keep_alive_id:
                 bad = 'answer carries id %r, received %r' % (back.keep_alive_id, pkt.keep_alive_id)
+            elif buf.get_writable() != data:
+                bad = 'answer carries the id as bytes %s' % buf.get_writable().hex()
     return dict(confirmed=bad is not None, call='keep-alive with id bytes %s at protocol %d' % (data.hex(), protocol_of_index(i)),
                 observed=bad or 'conforms')
 
